@@ -134,8 +134,8 @@ def analyse(o, kw):
     try:
         o.gamma_method(**kw)
     except ValueError as e:
-        if 'at least 8 samples' in str(e):
-            return None
+        if 'at least 8 samples' in str(e) or 'common spacing' in str(e):
+            return None   # requests the library documents as not analysable: outside the quantifier
         raise
     return results_of(o)
 
